@@ -340,6 +340,25 @@ class TwoArgError(Exception):
         self.a, self.b = a, b
 
 
+class FormattedArgsError(Exception):
+    """An exception whose constructor arguments are not its `args` (it formats them into one message), as many library errors do."""
+
+    def __init__(self, code, detail):
+        super().__init__(f"fault {code}: {detail}")
+        self.code, self.detail = code, detail
+
+
+def make_exc(exc: str, token: str):
+    """A new exception object of the named class carrying the token."""
+    if exc == "TwoArgError":
+        return TwoArgError(token, 42)
+    if exc == "FormattedArgsError":
+        return FormattedArgsError(7, token)
+    if exc == "FileNotFoundWithName":  # what open() raises: errno, message and the file name (the token is in the file name only)
+        return FileNotFoundError(2, "No such file or directory", f"/nonexistent/{token}.dat")
+    return exc_class(exc)(token)
+
+
 def fault(detector, token="tok", exc="ValueError", at_step=None, at_level=None, level=0.0, tag=None):
     """Raise a chosen exception class carrying a unique token at a chosen (run, step) site; otherwise log the call."""
     _log({"kind": "fault_call", "tag": tag, "step": int(detector.pipeline_count), "level": float(level)})
@@ -395,11 +414,9 @@ def fault2(detector, tag=None, token="tok", exc="ValueError", at_step=None, at_t
         if same_instance:
             key = (exc, token)
             if key not in SAME_INSTANCE:
-                SAME_INSTANCE[key] = TwoArgError(token, 42) if exc == "TwoArgError" else exc_class(exc)(token)
+                SAME_INSTANCE[key] = make_exc(exc, token)
             raise SAME_INSTANCE[key]
-        if exc == "TwoArgError":
-            raise TwoArgError(token, 42)
-        raise exc_class(exc)(token)
+        raise make_exc(exc, token)
     detector.pixel.array = detector.pixel.array + 1.0
     detector.image.array = np.full(detector.geometry.shape, 3, dtype=np.uint16)
 
@@ -454,7 +471,5 @@ def fault_at_call(detector, n=None, token="tok", exc="ValueError", tag=None):
         COUNTER["n"] = k + 1
     _log({"kind": "fault_call", "tag": tag, "call": k, "thread": threading.get_ident()})
     if n is not None and k == int(n):
-        if exc == "TwoArgError":
-            raise TwoArgError(token, 42)
-        raise exc_class(exc)(token)
+        raise make_exc(exc, token)
     detector.pixel.array = detector.pixel.array + float(k % 7)
